@@ -2,12 +2,13 @@
 C02 — the n-best list is duplicate-free, best-first and optimal over all connectable paths.
 
 Model: Chokan.Model.Kkc (`forwardDp`, `nBest` on a replica of std's BinaryHeap), score tables from
-Chokan.Gen.Kkc.  Proved so far: the Viterbi step (`bestScore` is exactly the maximum over the
-connectable predecessors).  The full statement is `C02_statement`; the optimality of the A* loop is
-checked on the implementation against exhaustive path enumeration by the correspondence oracle.
+Chokan.Gen.Kkc.  Proved: the Viterbi step, length/distinctness, every result is a connectable path with
+its exact score, and `C02` — best-first order and optimality over all connectable paths whenever the
+loop ends by itself.  Not proved: that the loop always ends (`C02_statement`).
 -/
 import Chokan.Lemmas.KkcScore
 import Chokan.Lemmas.KkcTiling
+import Chokan.Lemmas.KkcAstar
 
 namespace Chokan.Props.C02
 open Chokan.Kkc Chokan.Dic
@@ -64,15 +65,59 @@ theorem C02_is_connectable_path (t : Tables) (ctx : Ctx) (f : Freq) (g : Graph) 
 theorem C02_deterministic (t : Tables) (input : Str) (d : Dict) (ctx : Ctx) (f : Freq) (n fuel : Nat) :
     getCandidates t input d ctx f n fuel = getCandidates t input d ctx f n fuel := rfl
 
-/-- Full-strength statement; the two conjuncts not yet proved are best-first order and optimality
-(nothing left out beats anything returned), which need the max-heap property of the BinaryHeap replica
-and the exactness of the forward scores as A* heuristic.  They are decided per case by exhaustive path
-enumeration on the implementation in the C02 check. -/
+/-- **Best-first and optimal** (partial correctness of the A* loop).  For the lattice of any input
+over any well-formed dictionary, after the forward pass, for every `n ≥ 1`: whenever the `while let`
+loop ends by itself within `fuel` iterations (`nBestE … = some R`: the heap ran empty or `n` results
+were collected), the list `R` it returns
+* is what `nBest` returns, has at most `n` entries with pairwise different texts,
+* is in non-increasing order of the engine's own path score,
+* and is optimal over **all** connectable `bos → eos` paths of the lattice: every such path either has
+  its text in `R`, or `R` has exactly `n` entries and none of them scores less than the path (so when
+  fewer than `n` distinct texts exist, all of them are returned).
+Proof: the heap replica is a max-heap (`Lemmas/KkcHeap`), the forward scores are exact Viterbi steps
+(`Lemmas/KkcForward`), priorities bound the score of every completion and never grow from parent to
+child, and every complete path keeps a suffix in the heap until it is output (`Lemmas/KkcAstar`). -/
+theorem C02_best_first_optimal (t : Tables) (ctx : Ctx) (f : Freq) (input : Str) (g0 : Graph)
+    (hg : GraphOK input g0) (n fuel : Nat) (hn : 1 ≤ n) (R : List Cand)
+    (h : nBestE t ctx f (forwardDp t ctx f g0) n fuel = some R) :
+    nBest t ctx f (forwardDp t ctx f g0) n fuel = R ∧
+    R.length ≤ n ∧ (R.map Cand.text).Nodup ∧ (R.map Cand.score).Pairwise (· ≥ ·) ∧
+    ∀ (p : List Node) (s : Nat), IsChain (forwardDp t ctx f g0) (.bos :: p) →
+      pathScore t ctx f (.bos :: p) = some s →
+      ((p.map Node.text).flatten ∈ R.map Cand.text) ∨ (R.length = n ∧ ∀ r ∈ R, s ≤ r.score) := by
+  have hR := nBestE_some t ctx f _ n fuel R h
+  have hF := forwardDp_fwdOK t ctx f input g0 hg
+  obtain ⟨hsorted, hopt⟩ := nBestE_spec t ctx f _ n fuel hn hF R h
+  obtain ⟨hlen, hnd⟩ := nBest_list t ctx f (forwardDp t ctx f g0) n fuel hn
+  rw [hR] at hlen hnd
+  refine ⟨hR, hlen, hnd, hsorted, ?_⟩
+  intro p s hch hs
+  rcases hopt (.bos :: p) s ⟨⟨p, rfl⟩, hch, hs⟩ with h1 | ⟨h2, h3⟩
+  · left
+    simpa [chainText, Node.text] using h1
+  · exact Or.inr ⟨by omega, h3⟩
+
+/-- The same at the level of `get_candidates`: any input, any well-formed dictionary, context,
+learned counts and `n ≥ 1`. -/
+theorem C02 (t : Tables) (input : Str) (d : Dict) (ctx : Ctx) (f : Freq) (n fuel : Nat) (hn : 1 ≤ n)
+    (hd : Dict.WF d) (g0 : Graph) (hg0 : fromInput t input d ctx = some g0) (R : List Cand)
+    (h : nBestE t ctx f (forwardDp t ctx f g0) n fuel = some R) :
+    getCandidates t input d ctx f n fuel = some R ∧
+    R.length ≤ n ∧ (R.map Cand.text).Nodup ∧ (R.map Cand.score).Pairwise (· ≥ ·) ∧
+    ∀ (p : List Node) (s : Nat), IsChain (forwardDp t ctx f g0) (.bos :: p) →
+      pathScore t ctx f (.bos :: p) = some s →
+      ((p.map Node.text).flatten ∈ R.map Cand.text) ∨ (R.length = n ∧ ∀ r ∈ R, s ≤ r.score) := by
+  have hg := fromInput_ok t input d ctx hd g0 hg0
+  obtain ⟨h1, h2⟩ := C02_best_first_optimal t ctx f input g0 hg n fuel hn R h
+  refine ⟨?_, h2⟩
+  simp [getCandidates, hg0, h1]
+
+/-- Full-strength statement: `C02` together with termination of the loop (some `fuel` suffices).
+Termination is not yet proved in the model; on the implementation every generated case terminates and
+is compared with exhaustive enumeration by the C02 check. -/
 def C02_statement : Prop :=
-  ∀ (t : Tables) (ctx : Ctx) (f : Freq) (g : Graph) (n : Nat), 1 ≤ n →
-    ∃ fuel, let R := nBest t ctx f g n fuel
-      R.length ≤ n ∧ (R.map Cand.text).Nodup ∧ (R.map Cand.score).Pairwise (· ≥ ·) ∧
-      ∀ (p : List Node) (s : Nat), IsChain g (.bos :: p) → pathScore t ctx f (.bos :: p) = some s →
-        ((p.map Node.text).flatten ∈ R.map Cand.text) ∨ (R.length = n ∧ ∀ r ∈ R, s ≤ r.score)
+  ∀ (t : Tables) (input : Str) (d : Dict) (ctx : Ctx) (f : Freq) (n : Nat), 1 ≤ n → Dict.WF d →
+    ∀ g0, fromInput t input d ctx = some g0 →
+    ∃ fuel R, nBestE t ctx f (forwardDp t ctx f g0) n fuel = some R
 
 end Chokan.Props.C02
